@@ -130,9 +130,15 @@ impl<'a> Suite<'a> {
 			let octets: Vec<u8> = match addr { IpAddr::V4(a) => a.octets().to_vec(), IpAddr::V6(a) => a.octets().to_vec() };
 			for n in 0..=255u8 {
 				let line = format!("cidr-prefix {} {}", hex(&octets), n);
-				let real = cidr_sexp(&CidrSubnet::from_addr_prefix(addr, n));
+				let real = match std::panic::catch_unwind(|| CidrSubnet::from_addr_prefix(addr, n)) {
+					Ok(c) => cidr_sexp(&c),
+					Err(_) => "panic".to_string(),
+				};
 				let model = self.drv.ask(&line);
 				self.rep.case(&line, true);
+				if real == "panic" {
+					self.rep.violate("C10:panic:cidr-from-addr-prefix", "CidrSubnet::from_addr_prefix panics", format!("{}\n{}", line, crate::last_panic()));
+				}
 				if real != model {
 					self.rep.disagree(&format!("{}:cidr-prefix", self.prop), "model and implementation differ on CidrSubnet::from_addr_prefix", format!("request: {}\nreal:  {}\nmodel: {}", line, real, model));
 				}
